@@ -48,6 +48,7 @@ pub fn all() -> Vec<Regression> {
         Regression { name: "D29-brent-sign-product-underflow", property: "C08", what: "g = 1e-170*(t-c) must be located at c", f: d29 },
         Regression { name: "D30-bdf-initial-step-exponent", property: "C01", what: "BDF on y''=-y from x0 = 50.2 with rtol=1e-9, atol=1e-12 and the automatic initial step must reach xend", f: d30 },
         Regression { name: "D31-dop853-nonfinite-after-error-test", property: "C04", what: "DOP853, first_step = 2*span: a single NaN answer at the new-point derivative or a dense-output stage of the last step must not give Success with NaN samples", f: d31 },
+        Regression { name: "D32-dense-without-accepted-step", property: "C06", what: "Radau/BDF, first_step = span/2, max_steps = 5, dense output: the run ends before its first accepted step and sol(x0) must still return y0", f: d32 },
         Regression { name: "D16-rk4-dense-order", property: "C07", what: "RK4 cubic Hermite dense output must be O(h^4) inside a step", f: d16 },
     ]
 }
@@ -591,6 +592,26 @@ fn d28() -> Result<(), String> {
     for w in s.t.windows(2) {
         if !(w[1] > w[0]) {
             return Err(format!("t not strictly increasing: {:e} then {:e}", w[0], w[1]));
+        }
+    }
+    Ok(())
+}
+
+fn d32() -> Result<(), String> {
+    let p = crate::problems::warp(&base(Base::Logistic(3.0)), crate::problems::Warp::Sin);
+    for m in [Method::RADAU, Method::BDF] {
+        let mut c = Cfg::new(m, 0.0, 3.0, &p.y0).tol(1e-6, 1e-8);
+        c.first_step = Some(1.5);
+        c.max_steps = Some(5);
+        c.dense = true;
+        c.user_jac = true;
+        let r = run(&p, &c);
+        let s = sol_of(&r)?;
+        if s.t.len() == 1 {
+            match s.sol(0.0) {
+                Ok(v) if v[0] == p.y0[0] => {}
+                other => return Err(format!("{}: status {:?}, t = {:?}, sol_span {:?}, sol(x0) = {:?}", mname(m), s.status, s.t, s.sol_span(), other)),
+            }
         }
     }
     Ok(())
